@@ -82,6 +82,24 @@ def generate(repo, g):
             if isinstance(n, ast.If) else u(n) for n in body]
     g.define('removeBoundParam', 'List String', lean_list(shape),
              'jedi/inference/signature.py:_remove_bound_param (parameters, statements in order)')
+    # forwarding: the guards of process_params / _remove_given_params, the kinds of maybe_*_argument
+    fn = star_args.find('process_params')
+    tests = [u(n.test) for n in ast.walk(fn) if isinstance(n, ast.If)]
+    g.define('processParamsTests', 'List String', lean_list(tests),
+             'jedi/inference/star_args.py:process_params (if tests, ast.walk order)')
+    fn = star_args.find('_remove_given_params')
+    tests = [u(n.test) for n in ast.walk(fn) if isinstance(n, ast.If)]
+    g.define('removeGivenTests', 'List String', lean_list(tests),
+             'jedi/inference/star_args.py:_remove_given_params (if tests in order)')
+    for meth, nm in (('maybe_positional_argument', 'maybePositionalKinds'), ('maybe_keyword_argument', 'maybeKeywordKinds')):
+        fn = names.find('_ParamMixin.' + meth)
+        lists = [n for n in ast.walk(fn) if isinstance(n, ast.List)]
+        apps = [u(n.args[0]) for n in ast.walk(fn) if isinstance(n, ast.Call) and isinstance(n.func, ast.Attribute)
+                and n.func.attr == 'append' and len(n.args) == 1]
+        if len(lists) != 1:
+            raise TieBroken('names.py:%s: expected one list literal' % meth, u(fn))
+        g.define(nm, 'List String', lean_list([u(e) for e in lists[0].elts] + apps),
+                 'jedi/inference/names.py:_ParamMixin.%s (options, stars included)' % meth)
     # calculate_index: the guards
     fn = helpers.find('CallDetails.calculate_index')
     tests = [u(n.test) for n in ast.walk(fn) if isinstance(n, ast.If)]
@@ -105,7 +123,9 @@ def generate(repo, g):
                   (classes, 'BaseName.docstring'), (classes, 'BaseName._get_docstring_signature'),
                   (classes, 'Signature.index'), (classes, 'Signature.bracket_start'),
                   (classes, 'BaseSignature.params'),
-                  (star_args, 'process_params'),
+                  (star_args, 'process_params'), (star_args, '_remove_given_params'),
+                  (star_args, '_iter_nodes_for_param'), (star_args, '_goes_to_param_name'),
+                  (names, '_ParamMixin.maybe_positional_argument'), (names, '_ParamMixin.maybe_keyword_argument'),
                   (putils, 'clean_scope_docstring'), (putils, 'safe_literal_eval')]:
         g.fp(s_, d)
     if rbp is not None:
